@@ -144,6 +144,19 @@ def extra(rep, cov, tier, rng):
                     rep.violation("signature made under (%s, ctx %r.., msg len %d) %s under (%s, ctx %r.., msg len %d)" %
                                   (di[0], (di[1] or b"")[:4], len(di[2]), "verifies" if got else "is rejected", dj[0], (dj[1] or b"")[:4], len(dj[2])),
                                   {"cases": [dict(zip(("fn", "copy", "args"), (lambda t: (t[0], t[1], [fmt_arg(a) for a in t[2]]))(call_verify(cp, pk, dj, sigs[i][1]))))]}, True)
+        # verification operates ONLY on the framed representative: a signature offered together with its own representative
+        # bytes as a bare message (no context, pure) must be rejected, and so must the bare message through the core verifier
+        calls, why = [], []
+        for d, s in list(zip(ds, sigs))[: (12 if tier == "quick" else len(ds))]:
+            if mprime(*d) != mprime("pure", None, mprime(*d)):
+                calls.append(("ml_verify", cp, [pk, mprime(*d), s[1], 0])); why.append(("API verify(None, pure) on the framed representative of", d))
+                calls.append(("ml_verify", cp, [pk, mprime(*d), s[1], b""])); why.append(("API verify(empty ctx, pure) on the framed representative of", d))
+            calls.append(("verify", cp, [s[1], d[2], pk])); why.append(("core verify on the unframed message of", d))
+        for (w, d), r in zip(why, crate(calls)):
+            n_pairs += 1
+            if r is None or r[0] != 0:
+                rep.violation("%s (%s, ctx %r.., msg len %d) accepts: verification does not operate on the framed representative only" %
+                              (w, d[0], (d[1] or b"")[:4], len(d[2])), {"cases": [{"fn": "ml_verify", "copy": cp, "args": []}], "descriptor": [d[0], None if d[1] is None else d[1].hex(), d[2].hex()]}, True)
         samples.append({"set": cp, "descriptors": len(ds), "example": [ds[0][0], None if ds[0][1] is None else ds[0][1].hex()[:16], ds[0][2].hex()[:16]]})
     # the model's framing functions against the same Python M'
     ds = descriptors(rng, tier)
